@@ -210,6 +210,7 @@ package ipfscluster
 //@   ensures [shard-dag-refused] haskey(pinset, h) && (pinset[h].Type == api.ShardType || pinset[h].Type == api.ClusterDAGType) ==> err != nil && nLogUnpin == old(nLogUnpin)
 //@   ensures [data-exactly-one] haskey(pinset, h) && pinset[h].Type == api.DataType && !c.config.FollowerMode ==> nLogUnpin == old(nLogUnpin) || (nLogUnpin == old(nLogUnpin) + 1 && lastUnlogged == pinset[h])
 //@   ensures [success-removes-it] err == nil ==> nLogUnpin > old(nLogUnpin) && lastUnlogged.Cid == h && lastUnlogged == pinset[h]
+//@   ensures [monotone] nLogUnpin >= old(nLogUnpin)
 //@   modifies nLogUnpin, lastUnlogged
 
 // ---- C07: RPC authorization ----
@@ -263,3 +264,73 @@ package ipfscluster
 //@   modifies nothing
 //@ lemma ping_cadence: forall d int :: d > 0 ==> d < 2 * d
 //@   property C09
+
+// ---- C10: re-homing on peer failure / removal, expiry sweep ----
+//@ interface Consensus.Peers(ctx)
+//@   modifies nothing
+
+//@ interface state.ReadOnly.List(ctx)
+//@   ensures err == nil ==> forall i int :: 0 <= i && i < len(res) ==> res[i] != nil && fresh(res[i]) && haskey(pinset, res[i].Cid) && *res[i] == pinset[res[i].Cid]
+//@   modifies nothing
+
+// the peers the closeness test compares this peer against: trusted members other than itself and the excluded (failed) peer
+//@ func (c *Cluster) getTrustedPeers
+//@   property C10
+//@   ensures [never-self-never-excluded] err == nil ==> forall i int :: 0 <= i && i < len(res) ==> res[i] != c.id && res[i] != exclude && in(res[i], trustedSet)
+//@   ensures [members-only] err == nil ==> forall i int :: 0 <= i && i < len(res) ==> in(res[i], elems(peers))
+//@   ensures [all-others-included] err == nil ==> forall k int :: 0 <= k && k < len(peers) && peers[k] != c.id && peers[k] != exclude && in(peers[k], trustedSet) ==> in(peers[k], elems(res))
+//@   loop 1 (range peers)
+//@     invariant !isnil(trustedPeers)
+//@     invariant forall i int :: 0 <= i && i < len(trustedPeers) ==> trustedPeers[i] != c.id && trustedPeers[i] != exclude && in(trustedPeers[i], trustedSet) && in(trustedPeers[i], elems(peers))
+//@     invariant forall k int :: 0 <= k && k < idx1 && peers[k] != c.id && peers[k] != exclude && in(peers[k], trustedSet) ==> in(peers[k], elems(trustedPeers))
+//@   modifies nothing
+
+//@ func (c *Cluster) distances
+//@   property C10
+//@   ensures err == nil ==> res != nil && fresh(res) && res.local == c.id
+//@   ensures [failed-peer-not-a-competitor] err == nil ==> forall i int :: 0 <= i && i < len(res.otherPeers) ==> res.otherPeers[i] != c.id && res.otherPeers[i] != exclude && in(res.otherPeers[i], trustedSet)
+//@   ensures err != nil ==> res == nil
+//@   modifies nothing
+
+// the hash-distance test is abstracted: a deterministic function of (this peer, the competitors, the CID)
+//@ func (dc distanceChecker) isClosest
+//@   opts trusted
+//@   ensures res == uf("isClosest", "bool", dc.local, dc.otherPeers, ci)
+//@   modifies nothing
+
+// "re-allocated ... with all of the pin's options preserved ... no pin is ever removed by this process"
+//@ func (c *Cluster) repinFromPeer
+//@   property C10
+//@   requires pin != nil && pinsetInv()
+//@   ensures [never-unpins] nLogUnpin == old(nLogUnpin)
+//@   ensures [at-most-one-entry] nLogPin == old(nLogPin) || nLogPin == old(nLogPin) + 1
+//@   ensures [follower-does-nothing] c.config.FollowerMode ==> nLogPin == old(nLogPin)
+//@   ensures [same-cid-same-options] nLogPin == old(nLogPin) + 1 && !isRedirect(old(pin.PinOptions), old(pin.Cid)) ==> lastLogged.Cid == old(pin.Cid) && optsAsRequested(c, lastLogged.PinOptions, old(pin.PinOptions))
+//@   modifies nLogPin, lastLogged, heap(api.Pin)
+
+//@ func (c *Cluster) vacatePeer
+//@   property C10
+//@   requires pinsetInv()
+//@   ensures [never-unpins] nLogUnpin == old(nLogUnpin)
+//@   ensures [disabled-or-follower-does-nothing] c.config.DisableRepinning || c.config.FollowerMode ==> nLogPin == old(nLogPin)
+//@   loop 1 (range list)
+//@     invariant nLogUnpin == old(nLogUnpin) && (c.config.FollowerMode ==> nLogPin == old(nLogPin)) && pinsetInv()
+//@     invariant forall q *Cluster :: *q == old(*q)
+//@     invariant forall q *Config :: *q == old(*q)
+//@   modifies nLogPin, lastLogged, heap(api.Pin)
+
+// "an expired pin is unpinned ... and an unexpired pin by none": the sweep only unpins pins whose expiry is before now and for which this peer is closest
+//@ func (c *Cluster) StateSync
+//@   property C10
+//@   ensures [never-pins] nLogPin == old(nLogPin)
+//@   ensures [follower-does-nothing] c.config.FollowerMode ==> nLogUnpin == old(nLogUnpin)
+//@   at_call Cluster.Unpin assert [only-expired-pins-are-unpinned] p.ExpireAt != 0 && p.ExpireAt < timeNow && h == p.Cid
+//@   at_call Cluster.Unpin assert [only-by-the-closest-peer] uf("isClosest", "bool", distance.local, distance.otherPeers, p.Cid)
+//@   loop 1 (range clusterPins)
+//@     invariant nLogPin == old(nLogPin) && (c.config.FollowerMode ==> nLogUnpin == old(nLogUnpin))
+//@   modifies nLogUnpin, lastUnlogged
+
+// at most one peer considers itself closest: XOR with the CID's hash is injective, so two different peer hashes never tie
+//@ lemma xor_injective: forall a int, b int, k int :: a != b ==> (a ^ k) != (b ^ k)
+//@   property C10
+//@   opts bv
